@@ -598,6 +598,7 @@ func (g *hgen) assignForms() {
 	form := forms[g.Pick(len(forms), "af-form")]
 	g.Tag("assign-form:" + form + " x " + kindOf(v))
 	g.Tag("assign-form:" + form)
+	g.Tag("assign-forms")
 	others := []variable{}
 	switch form {
 	case "plain":
@@ -936,7 +937,7 @@ func Generate(t *rapid.T, px string) gobatch.Program {
 	nsteps := g.Int(3, 12, "nsteps")
 	nbulk := 0
 	for s := 0; s < nsteps; s++ {
-		k := g.Pick(24, "action")
+		k := g.Pick(26, "action")
 		// the bulk action is most interesting right after an address was taken
 		if g.anySlotAddr && g.lastAddrItem >= len(g.items)-2 && nbulk < 2 && g.Chance(1, 2, "bulk-now") {
 			k = 19
@@ -984,6 +985,9 @@ func Generate(t *rapid.T, px string) gobatch.Program {
 		if ptr.wrote {
 			p.NT = "slot-addr-then->=1024-slot-decls-then-write-through"
 		}
+	}
+	if p.NT == "" && g.Tags["assign-forms"] {
+		p.NT = "addr-then-assignment-form-then-write-through"
 	}
 	p.Tags = g.TagList()
 	return p
